@@ -132,15 +132,11 @@ impl RibbitClient {
                     Ok(n) => {
                         buffer.extend_from_slice(&temp_buf[..n]);
 
-                        // For V2 responses, check for double newline terminator
-                        // For V1 MIME responses, we need to read until connection closes
-                        // or we detect the complete MIME structure
-                        if buffer.ends_with(b"\n\n") {
-                            // Check if this might be a V1 MIME response that's not complete
-                            if !is_v1_mime_response(&buffer) {
-                                break;
-                            }
-                        }
+                        // Read until the server closes the connection (Ribbit serves one
+                        // request per connection and the write side is already shut down).
+                        // Stopping at a buffer that happens to end in "\n\n" made the
+                        // result depend on how TCP split the bytes: a blank line inside a
+                        // V2 response ended the read early whenever a segment ended there.
 
                         // Safety limit - V1 responses can be larger due to signatures
                         if buffer.len() > 50 * 1024 * 1024 {
